@@ -238,19 +238,23 @@ _WORK_FN = None
 _WORK_FRESH = False
 
 
-def run_forked(fn, arg, tmo):
+def run_forked(fn, arg, tmo, cpu=False):
     """fn(arg) in a forked child of this process (which itself never runs fn and so keeps its module-level
-    state pristine); the result comes back pickled through a pipe; a child exceeding the timer is a hang"""
+    state pristine); the result comes back pickled through a pipe; a child exceeding the timer is a hang.
+    cpu=True: the timer counts the CPU time the child consumes (a child that is merely starved on an oversubscribed machine
+    is not a hang); if it has not finished after a long wall-clock wait either, the outcome is "starved" (infrastructure)"""
     import pickle
     import select
+
+    which, sig = (signal.ITIMER_PROF, signal.SIGPROF) if cpu else (signal.ITIMER_REAL, signal.SIGALRM)
 
     r, w = os.pipe()
     pid = os.fork()
     if pid == 0:
         os.close(r)
         try:
-            signal.signal(signal.SIGALRM, _alarm)
-            signal.setitimer(signal.ITIMER_REAL, tmo)
+            signal.signal(sig, _alarm)
+            signal.setitimer(which, tmo)
             try:
                 res = fn(arg)
             except Hang:
@@ -258,7 +262,7 @@ def run_forked(fn, arg, tmo):
             except Exception as ex:
                 res = {"outcome": "harness-error:" + type(ex).__name__, "trace": traceback.format_exc()[-800:]}
             finally:
-                signal.setitimer(signal.ITIMER_REAL, 0)
+                signal.setitimer(which, 0)
             data = pickle.dumps(res)
             off = 0
             while off < len(data):
@@ -266,7 +270,7 @@ def run_forked(fn, arg, tmo):
         finally:
             os._exit(0)
     os.close(w)
-    chunks, deadline = [], time.time() + tmo + 15
+    chunks, deadline = [], time.time() + (max(20 * tmo, 900) if cpu else tmo + 15)
     try:
         while True:
             left = deadline - time.time()
@@ -285,7 +289,7 @@ def run_forked(fn, arg, tmo):
         except ChildProcessError:
             pass
     if not chunks:
-        return {"outcome": "hang"}
+        return {"outcome": "starved" if cpu else "hang"}
     return pickle.loads(b"".join(chunks))
 
 
@@ -455,7 +459,11 @@ class Check:
         # only a case that does not finish then either counts as not terminating
         slow = [i for i, r in enumerate(results) if isinstance(r, dict) and r.get("outcome") == "hang"]
         for i in slow[:40]:
-            results[i] = run_forked(impl, cases[i], 6 * per_case_timeout)
+            # second opinion by CPU time: six times the allowance of processor time, however long that takes on a busy machine
+            results[i] = run_forked(impl, cases[i], 6 * per_case_timeout, cpu=True)
+            if results[i].get("outcome") == "starved":
+                raise Infra(f"stream {name}: a case neither finished nor used its processor-time allowance within "
+                            f"{max(120 * per_case_timeout, 900):.0f} s of waiting (machine oversubscribed?)")
         # an exception that points at the environment rather than at the library (a failed lazy import while the machine is
         # oversubscribed, out of memory, too many open files) is not a verdict: such a case is run again on its own, once
         envish = [i for i, r in enumerate(results) if isinstance(r, dict) and _ENV_ERR.search(str(r.get("outcome", "")) + " " + str(r.get("msg", ""))[:200])]
